@@ -234,11 +234,16 @@ class WebSocketWriter:
             # indicate that the frame is using an extension.
             # https://datatracker.ietf.org/doc/html/rfc6455#section-5.2
             compressobj = self._get_compressor(compress)
+            compressed = await compressobj.compress(message)
+            if self._closing:
+                # close() sent the close frame while this frame was waiting
+                # for the lock or being compressed: nothing may follow it.
+                raise ClientConnectionResetError("Cannot write to closing transport")
             # (0x40) RSV1 is set for compressed frames
             # https://datatracker.ietf.org/doc/html/rfc7692#section-7.2.3.1
             self._write_websocket_frame(
                 (
-                    await compressobj.compress(message)
+                    compressed
                     + compressobj.flush(
                         ZLibBackend.Z_FULL_FLUSH
                         if self.notakeover
